@@ -58,7 +58,8 @@ def effect_calls(w_abs):
     return out
 
 
-POSITIONS = ["toplevel", "fun", "closure", "method", "loop", "matcharm", "arg", "after_stmts", "if", "nested_fun", "test"]
+POSITIONS = ["toplevel", "fun", "closure", "method", "loop", "matcharm", "arg", "after_stmts", "if", "nested_fun", "test",
+             "callback", "while_cond", "struct_field"]
 
 
 def place(call, position, rng):
@@ -88,6 +89,13 @@ def place(call, position, rng):
         return "", f"{pre} {pr}"
     if position == "if":
         return "", f"if 1 < 2 {{ {pr} }} else {{ println(\"no\") }}"
+    if position == "callback":
+        # called from inside a prelude function written in Garden
+        return "", f"let rs = [1].map(fun(_) {{ {call} }}) println(\"RESULT:\" ^ string_repr(rs))"
+    if position == "while_cond":
+        return "", f"let n = 0 while string_repr({call}) != \"\" && n < 1 {{ n += 1 }} println(\"RESULT:\" ^ string_repr(n))"
+    if position == "struct_field":
+        return "struct Holder { v: String }", f"let h = Holder{{ v: string_repr({call}) }} println(\"RESULT:\" ^ h.v)"
     if position == "test":
         return f"test effect_test {{ let r = {call} assert(string_repr(r) == \"nope\") }}", "println(\"RESULT: tests ran\")"
     raise ValueError(position)
@@ -103,7 +111,8 @@ class C24:
     rule = ("case = one effectful built-in call (every fs:: function, Path.exists/info, shell::run by name / absolute path / "
             "via sh, read_line; relative and absolute targets: secret file, sentinel, new file, directories, a canary "
             "executable first on PATH) placed at one of 11 positions (toplevel, function, 3-deep calls, closure, method, "
-            "loop, match arm, argument, after statements, if branch, test body), run by the REAL binary in "
+            "loop, match arm, argument, after statements, if branch, test body, callback of a prelude function, loop "
+            "condition, struct field; module imported under its usual alias, another alias or unqualified), run by the REAL binary in "
             "`playground-run` or `sandboxed-test` mode inside a seeded scratch world with stdin loaded / stalled / closed "
             "and optionally a Ctrl-C injected at step k (VERIF_FAULTS). evaluations = child processes. distinct_nontrivial "
             "= distinct (call, position, mode, stdin mode, fault) in which the call site was really reached (output shows "
@@ -146,6 +155,15 @@ class C24:
     def build_program(self, case, w_abs):
         call = case["call"].replace("@W@", w_abs)
         imports = f"import \"__{case['imp']}.gdn\" as {case['imp']}\n" if case["imp"] else ""
+        style = Rng(case["aux"]).fork("import").below(4) if case["imp"] else 0
+        if style == 1:
+            # another alias
+            imports = f"import \"__{case['imp']}.gdn\" as zz\n"
+            call = call.replace(f"{case['imp']}::", "zz::")
+        elif style == 2:
+            # no alias: the module's public functions are called unqualified
+            imports = f"import \"__{case['imp']}.gdn\"\n"
+            call = call.replace(f"{case['imp']}::", "")
         defs, body = place(call, case["position"], Rng(case["aux"]))
         if case["mode"] == "sandboxed-test":
             # everything happens inside a test body; the helper definitions stay at toplevel
